@@ -1,12 +1,11 @@
 (* Builder.v: model of code_table.hpp (construction) and trie_builder.hpp, and the trie constructor. *)
-From X Require Import Base Arr Consts BitToolsSpec BitToolsGen BitVector CompactVector Dac Tail Trie.
+From X Require Import Base Arr Consts BitToolsSpec BitToolsGen BitVector CompactVector Dac Tail Trie Wf.
 Local Open Scope N_scope.
 
 (* ---------------- code table ---------------- *)
 Fixpoint count_byte (b : N) (k : key) : N :=
   match k with [] => 0 | c :: t => (if c =? b then 1 else 0) + count_byte b t end.
 Definition freq (K : list key) (b : N) : N := fold_left (fun acc k => acc + count_byte b k) K 0.
-Definition bytes256 : list N := map N.of_nat (seq 0 256).
 Definition alphabet_of (K : list key) : list N := filter (fun b => negb (freq K b =? 0)) bytes256.
 Definition max_length_of (K : list key) : N := fold_left (fun acc k => N.max acc (lenN k)) K 0.
 
@@ -269,15 +268,9 @@ Definition bvb_to_bits (b : bvb) : res (list bool) :=
      match n with O => Ok [] | S m => do x <- bvb_get b i; do r <- go m (i + 1); Ok (x :: r) end)
   (N.to_nat (bb_size b)) 0.
 
-Fixpoint apply_assign (u : marr unit) (asg : list (N * N)) : res (marr unit) :=
-  match asg with
-  | [] => Ok u
-  | (npos, tpos) :: t => do x <- mget u npos; do u' <- mset u npos (tpos, snd x); apply_assign u' t
-  end.
-
-(* trie_builder constructor followed by the trie(trie_builder&&) constructor.
+(* trie_builder constructor up to and including finish(): the logical content.
    [tbl]: the code table permutation (oracle, see above). *)
-Definition build (v : variant) (tbl : list N) (K : list key) (req_bin : bool) : res trie :=
+Definition build_logical (v : variant) (tbl : list N) (K : list key) (req_bin : bool) : res logical :=
   match K with
   | [] => Exc EmptyDataset
   | _ =>
@@ -300,10 +293,11 @@ Definition build (v : variant) (tbl : list N) (K : list key) (req_bin : bool) : 
     let keys := of_list K in
     do s4 <- arrange l1 table keys (S (N.to_nat (max_length_of K))) s3 0 (lenN K) 0 0;
     do s5 <- finish l1 (S (N.to_nat (shr64 (mlen (bs_units s4)) 8))) s4;
-    do '(tv, asg) <- tail_complete bin (bs_sufs s5);
-    do units <- apply_assign (bs_units s5) asg;
-    do terms <- bv_build (bs_terms s5) true true;
+    do terms <- bvb_to_bits (bs_terms s5);
     do leaves <- bvb_to_bits (bs_leaves s5);
-    do bc <- bc_build v (m_to_list units) leaves;
-    Ok (mkTrie (lenN K) table terms bc tv)
+    Ok (mkL (lenN K) tbl (alphabet_of K) (max_length_of K) bin terms leaves (m_to_list (bs_units s5)) (bs_sufs s5))
   end.
+
+(* ... followed by m_suffixes.complete(...) and the trie(trie_builder&&) constructor *)
+Definition build (v : variant) (tbl : list N) (K : list key) (req_bin : bool) : res trie :=
+  do L <- build_logical v tbl K req_bin; assemble v L.
